@@ -160,6 +160,19 @@ func (d *Driver) Ask(lines []string) []string {
 			OracleChecked++
 			oracleMu.Unlock()
 		}
+		if strings.HasPrefix(lines[len(res)], "tok\t") {
+			oracleMu.Lock()
+			TokChecked++
+			oracleMu.Unlock()
+		}
+		if strings.HasPrefix(s, "tok-mismatch") {
+			oracleMu.Lock()
+			if len(OracleMismatches) < 50 {
+				OracleMismatches = append(OracleMismatches, Disagreement{Class: "token-facts: harness decoder vs Model/Token+Claims",
+					Case: lines[len(res)], Model: s, Impl: "facts recomputed by the harness's decoder (pkg/jws: encoding/json on a mirror struct)"})
+			}
+			oracleMu.Unlock()
+		}
 		if strings.HasPrefix(s, "or-mismatch") {
 			oracleMu.Lock()
 			if len(OracleMismatches) < 50 {
@@ -189,6 +202,7 @@ func (d *Driver) Close() {
 var (
 	OracleMismatches []Disagreement
 	OracleChecked    int
+	TokChecked       int
 	oracleMu         sync.Mutex
 )
 
@@ -282,6 +296,7 @@ func (r *Report) Write(path string) {
 	r.Disagreements = append(r.Disagreements, OracleMismatches...)
 	if r.Distribution != nil {
 		r.Distribution["template answers checked against Model/Template"] = OracleChecked
+		r.Distribution["token facts checked against Model/Token+Claims"] = TokChecked
 	}
 	oracleMu.Unlock()
 	if r.Disagreements == nil {
